@@ -144,7 +144,7 @@ COMMON_ASSUME = [
 def plan_C04(prop, tier, seed, t0):
     q = tier == "quick"
     mcs = [dict(name="rules_q", module="MC_Rules.tla", cfg="MC_Rules_q.cfg" if q else "MC_Rules_t.cfg",
-                timeout=900 if q else 5000)]
+                timeout=3000 if q else 9000)]
     fams = ["--fam", "k=2,tys=ZX,phs=01247,ets=NH,nb=2", "--fam", "k=3,tys=Z,phs=0124,ets=H,nb=1"]
     if not q:
         fams += ["--fam", "k=3,tys=ZX,phs=0124,ets=NH,nb=1", "--fam", "k=4,tys=Z,phs=014,ets=H,nb=1"]
@@ -164,8 +164,8 @@ def plan_C04(prop, tier, seed, t0):
 
 def plan_C01(prop, tier, seed, t0):
     q = tier == "quick"
-    mcs = [dict(name="simp", module="MC_Simp.tla", cfg="MC_Simp_q.cfg" if q else "MC_Simp_t.cfg", timeout=900 if q else 5000),
-           dict(name="simp_live", module="MC_Simp.tla", cfg="MC_Simp_live_q.cfg" if q else "MC_Simp_live.cfg", timeout=1500 if q else 3000)]
+    mcs = [dict(name="simp", module="MC_Simp.tla", cfg="MC_Simp_q.cfg" if q else "MC_Simp_t.cfg", timeout=3000 if q else 9000),
+           dict(name="simp_live", module="MC_Simp.tla", cfg="MC_Simp_live_q.cfg" if q else "MC_Simp_live.cfg", timeout=3000 if q else 9000)]
     T = dict(module="Trace_Simp.tla", cfg="Trace_Simp.cfg")
     traces = [
         dict(name="fam", engine="simp", args=["--fam", "k=3,tys=ZX,phs=0124,ets=NH,nb=1", "--fam", "k=2,tys=ZX,phs=01247,ets=NH,nb=2,bb=1",
@@ -182,8 +182,8 @@ def plan_C01(prop, tier, seed, t0):
 
 def plan_C10(prop, tier, seed, t0):
     q = tier == "quick"
-    mcs = [dict(name="rules_v", module="MC_Rules.tla", cfg="MC_Rules_v.cfg", timeout=1500),
-           dict(name="simp_v", module="MC_Simp.tla", cfg="MC_Simp_v.cfg", timeout=1500)]
+    mcs = [dict(name="rules_v", module="MC_Rules.tla", cfg="MC_Rules_v.cfg", timeout=3000),
+           dict(name="simp_v", module="MC_Simp.tla", cfg="MC_Simp_v.cfg", timeout=3000)]
     if not q:
         mcs.append(dict(name="rules_v3", module="MC_Rules.tla", cfg="MC_Rules_v3.cfg", timeout=5000))
     R = dict(module="Trace_Rules.tla", cfg="Trace_Rules.cfg")
@@ -207,8 +207,8 @@ def plan_C10(prop, tier, seed, t0):
 
 def plan_C02(prop, tier, seed, t0):
     q = tier == "quick"
-    mcs = [dict(name="tograph", module="MC_ToGraph.tla", cfg="MC_ToGraph_q.cfg" if q else "MC_ToGraph_t.cfg", timeout=1500 if q else 6000),
-           dict(name="ccz", module="MC_Circ.tla", cfg="MC_Circ_tr.cfg", timeout=1500)]
+    mcs = [dict(name="tograph", module="MC_ToGraph.tla", cfg="MC_ToGraph_q.cfg" if q else "MC_ToGraph_t.cfg", timeout=3000 if q else 9000),
+           dict(name="ccz", module="MC_Circ.tla", cfg="MC_Circ_tr.cfg", timeout=3000)]
     C = dict(module="Trace_Circ.tla", cfg="Trace_Circ.cfg")
     traces = [
         dict(name="enum", engine="tograph", args=["--enum", "2,2,all" if q else "2,3,small", "--enum", "3,1,ccz" if q else "3,2,ccz", "--enum", "1,3,small",
@@ -225,7 +225,7 @@ def plan_C02(prop, tier, seed, t0):
 
 def plan_C15(prop, tier, seed, t0):
     q = tier == "quick"
-    mcs = [dict(name="circ", module="MC_Circ.tla", cfg="MC_Circ_q.cfg" if q else "MC_Circ_t.cfg", timeout=1500 if q else 6000)]
+    mcs = [dict(name="circ", module="MC_Circ.tla", cfg="MC_Circ_q.cfg" if q else "MC_Circ_t.cfg", timeout=3000 if q else 9000)]
     C = dict(module="Trace_Circ.tla", cfg="Trace_Circ.cfg")
     traces = [
         dict(name="enum", engine="circops", args=["--enum", "2,2,unitary", "--enum", "3,1,unitary", "--stride", 2 if q else 1], **C),
@@ -240,7 +240,7 @@ def plan_C15(prop, tier, seed, t0):
 
 def plan_C08(prop, tier, seed, t0):
     q = tier == "quick"
-    mcs = [dict(name="sem", module="MC_Sem.tla", cfg="MC_Sem.cfg" if q else "MC_Sem_t.cfg", timeout=1500 if q else 5000)]
+    mcs = [dict(name="sem", module="MC_Sem.tla", cfg="MC_Sem.cfg" if q else "MC_Sem_t.cfg", timeout=3000 if q else 9000)]
     T = dict(module="Trace_Tensor.tla", cfg="Trace_Tensor.cfg")
     traces = [
         dict(name="fam", engine="tensor", args=["--fam", "k=2,tys=ZX,phs=01247,ets=NH,nb=2,bb=1", "--fam", "k=3,tys=ZX,phs=014,ets=NH,nb=1",
@@ -257,7 +257,7 @@ def plan_C08(prop, tier, seed, t0):
 
 def plan_C11(prop, tier, seed, t0):
     q = tier == "quick"
-    mcs = [dict(name="plug", module="MC_Plug.tla", cfg="MC_Plug_q.cfg" if q else "MC_Plug_t.cfg", timeout=2000 if q else 6000)]
+    mcs = [dict(name="plug", module="MC_Plug.tla", cfg="MC_Plug_q.cfg" if q else "MC_Plug_t.cfg", timeout=3000 if q else 9000)]
     T = dict(module="Trace_Compose.tla", cfg="Trace_Compose.cfg")
     traces = [
         dict(name="pairs", engine="compose", args=["--wires", "--fam", "k=1,tys=ZX,phs=014,ets=NH,nb=2,bb=1", "--fam", "k=2,tys=ZX,phs=01,ets=NH,nb=2",
@@ -274,8 +274,8 @@ def plan_C11(prop, tier, seed, t0):
 
 def plan_C12(prop, tier, seed, t0):
     q = tier == "quick"
-    mcs = [dict(name="equal1", module="MC_Equal.tla", cfg="MC_Equal_q.cfg", timeout=2000),
-           dict(name="equal2", module="MC_Equal.tla", cfg="MC_Equal_2.cfg" if q else "MC_Equal_2t.cfg", timeout=2000 if q else 6000)]
+    mcs = [dict(name="equal1", module="MC_Equal.tla", cfg="MC_Equal_q.cfg", timeout=3000),
+           dict(name="equal2", module="MC_Equal.tla", cfg="MC_Equal_2.cfg" if q else "MC_Equal_2t.cfg", timeout=3000 if q else 9000)]
     T = dict(module="Trace_Eq.tla", cfg="Trace_Eq.cfg")
     traces = [
         dict(name="enum", engine="eqcheck", args=["--enum", "1,2,small_unitary", "--enum", "2,1,small_unitary", "--stride", 2 if q else 1], **T),
@@ -291,7 +291,7 @@ def plan_C12(prop, tier, seed, t0):
 
 def plan_C03(prop, tier, seed, t0):
     q = tier == "quick"
-    mcs = [dict(name="extract_q", module="MC_Extract.tla", cfg="MC_Extract_q.cfg", timeout=1500)]
+    mcs = [dict(name="extract_q", module="MC_Extract.tla", cfg="MC_Extract_q.cfg", timeout=3000)]
     if not q:
         mcs += [dict(name="extract_" + c, module="MC_Extract.tla", cfg=f"MC_Extract_{c}.cfg", timeout=5000) for c in ("c3", "f3", "flow3")]
     T = dict(module="Trace_Extract.tla", cfg="Trace_Extract.cfg")
@@ -318,7 +318,7 @@ def plan_C03(prop, tier, seed, t0):
 
 def plan_C09(prop, tier, seed, t0):
     q = tier == "quick"
-    mcs = [dict(name="backends", module="MC_Backends.tla", cfg="MC_Backends_q.cfg" if q else "MC_Backends_t.cfg", timeout=1500 if q else 6000)]
+    mcs = [dict(name="backends", module="MC_Backends.tla", cfg="MC_Backends_q.cfg" if q else "MC_Backends_t.cfg", timeout=3000 if q else 9000)]
     T = dict(module="Trace_Backends.tla", cfg="Trace_Backends.cfg")
     traces = [
         dict(name="hist", engine="backends", args=["--histories", 200 if q else 3000, "--len", 60, "--maxlive", 7], **T),
@@ -338,8 +338,8 @@ def plan_C05(prop, tier, seed, t0):
     q = tier == "quick"
     cfgs = ["small", "cat", "cat4", "bss", "tpair", "cat6"] if q else ["small", "cat", "cat4", "cat5", "cat6", "m5", "bss", "tpair"]
     mcs = [dict(name="step_" + c, module="MC_Decomp.tla", cfg=f"MC_Decomp_{c}.cfg", timeout=3000) for c in cfgs]
-    mcs += [dict(name="par1", module="MC_DecompPar.tla", cfg="MC_DecompPar_1.cfg", timeout=1500),
-            dict(name="par2", module="MC_DecompPar.tla", cfg="MC_DecompPar_2.cfg", timeout=1500)]
+    mcs += [dict(name="par1", module="MC_DecompPar.tla", cfg="MC_DecompPar_1.cfg", timeout=3000),
+            dict(name="par2", module="MC_DecompPar.tla", cfg="MC_DecompPar_2.cfg", timeout=3000)]
     T = dict(module="Trace_Decomp.tla", cfg="Trace_Decomp.cfg")
     traces = [
         dict(name="steps", engine="decomp", args=["--steps", 400 if q else 6000, "--maxt", 6], **T),
@@ -359,7 +359,7 @@ def plan_C05(prop, tier, seed, t0):
 
 def plan_C06(prop, tier, seed, t0):
     q = tier == "quick"
-    mcs = [dict(name="sim", module="MC_Sim.tla", cfg="MC_Sim_q.cfg" if q else "MC_Sim_t.cfg", timeout=2000 if q else 6000)]
+    mcs = [dict(name="sim", module="MC_Sim.tla", cfg="MC_Sim_q.cfg" if q else "MC_Sim_t.cfg", timeout=3000 if q else 9000)]
     T = dict(module="Trace_Sim.tla", cfg="Trace_Sim.cfg")
     simdir = os.path.join(WORK, prop, "simdir")
     traces = [
@@ -379,7 +379,7 @@ def plan_C06(prop, tier, seed, t0):
 
 def plan_C07(prop, tier, seed, t0):
     q = tier == "quick"
-    mcs = [dict(name="ring", module="MC_Ring.tla", cfg="MC_Ring.cfg", timeout=2000)]
+    mcs = [dict(name="ring", module="MC_Ring.tla", cfg="MC_Ring.cfg", timeout=3000)]
     T = dict(module="Trace_Scalar.tla", cfg="Trace_Scalar.cfg")
     traces = [
         dict(name="hist", engine="scalar", args=["--dyadic", 160 if q else 3000, "--scalar", 160 if q else 3000, "--len", 60], **T),
